@@ -234,6 +234,8 @@ func c08(tier string) []*explore.Scenario {
 	// requests that wait for a worker of the unary pool (8 per connection) before their handler starts
 	qto := []time.Duration{30 * time.Second, time.Hour, 99999999 * time.Second, 5000 * time.Hour}
 	out = append(out, c08Queued(7, 400*time.Millisecond, qto), c08Queued(8, 400*time.Millisecond, qto), c08Queued(12, 3*time.Second, qto), c08Queued(8, 0, qto))
+	// finer granularity (a scheduling point after every Unlock as well) on the small core scenarios
+	out = append(out, fineGrained(c08Concurrent(2, false, time.Hour, 1), c08Concurrent(2, true, 30*time.Second, 1))...)
 	return out
 }
 
